@@ -39,3 +39,51 @@ Schema(
         "debug": "bool",
     },
 )
+
+Schema(
+    "ObjCrossRef",
+    fields={"obj_name": "any", "cls": "any", "position": "int", "scope_provider": "any",
+            "match_rule_name": "any", "position_end": "int|none"},
+)
+Schema(
+    "MetaAttr",
+    fields={"name": "str", "cls": "any", "mult": "str", "cont": "bool", "ref": "bool",
+            "bool_assignment": "bool", "position": "int"},
+)
+Schema(
+    "TextXModelParser",
+    fields={"metamodel": "obj:TextXMetaModel", "_crossrefs": "list", "debug": "bool",
+            "_inst_stack": "list", "_instances": "dict"},
+)
+Schema(
+    "ReferenceResolver",
+    fields={"parser": "obj:TextXModelParser", "model": "any", "pos_crossref_list": "list",
+            "delayed_crossrefs": "list"},
+)
+Schema(
+    "RefRulePosition",
+    fields={"name": "any", "ref_pos_start": "any", "ref_pos_end": "any", "def_file_name": "any",
+            "def_pos_start": "any", "def_pos_end": "any"},
+)
+Schema("PlainName", fields={"multi_metamodel_support": "bool"})
+
+# attribute names that have one type wherever textX uses them (naming invariants
+# of the code base; assumed when an object's class has no schema of its own)
+Schema(
+    "*",
+    fields={
+        "_tx_inh_by": "list",
+        "_tx_attrs": "dict",
+        "_tx_obj_attrs": "dict",
+        "_tx_fqn": "str",
+        "_tx_type": "str",
+        "_tx_position": "int",
+        "_tx_position_end": "int",
+        "_crossrefs": "list",
+        "_inst_stack": "list",
+        "_user_class_inst": "list",
+        "user_classes": "dict",
+        "filename_to_model": "dict",
+        "delayed_crossrefs": "list",
+    },
+)
